@@ -62,6 +62,8 @@ def check(ctx):
     _pdhg_steps(rep, model)
     _fixed_points(rep, model)
     _kaczmarz_random(rep, model)
+    from . import c12b
+    c12b.run(rep, model)
     return rep
 
 
